@@ -732,6 +732,8 @@ static void run_heap(char* nregs_s, char* ops) {
         n->payload = strtoll(f[1], NULL, 10); n->nf = k;
         for (int i = 0; i < k; i++) n->f[i] = fs[i];
         if (dst >= 0 && dst < nregs) R[dst] = n;     /* a register outside the file: the object is garbage at once */
+        for (int i = 0; i < NFIELD; i++) ((var volatile*)fs)[i] = NULL;   /* no stale copies for the conservative scan */
+        n = NULL;
         P("ok"); break;
       }
       case 'R': { struct Node* a = hp_deref(R, nregs, f[0]); if (a) P("v%" PRId64, a->payload); else P("bad"); break; }
